@@ -41,6 +41,15 @@ SCRIPTS = {
                        b'UID STORE 104 +FLAGS (\\Deleted)', b'EXPUNGE'],
     'expunge-append': [b'UID STORE 101 +FLAGS (\\Deleted)', b'EXPUNGE', APPEND_F,
                        b'UID STORE 103 +FLAGS (\\Draft)'],
+    # replace-with-empty, .SILENT, a -FLAGS that empties the set, stores that change nothing
+    'replace-empty': [b'UID STORE 101 FLAGS ()', b'UID STORE 102 FLAGS.SILENT ()',
+                      b'UID STORE 103 +FLAGS.SILENT (\\Flagged)', b'UID STORE 103 -FLAGS (\\Flagged \\Seen)'],
+    'noop-stores': [b'UID STORE 101 +FLAGS (\\Seen)', b'UID STORE 104 FLAGS ()',
+                    b'UID STORE 104 -FLAGS (\\Draft)', b'UID STORE 102 FLAGS ($Forwarded custom)'],
+    # COPY / MOVE into the idled mailbox, UID EXPUNGE, APPEND with and without flags
+    'copy-move': [b'COPY 1 INBOX', b'UID MOVE 102 INBOX', b'UID STORE 103 +FLAGS (\\Deleted)',
+                  b'UID EXPUNGE 103'],
+    'append-plain': [APPEND_0, b'UID STORE 105 FLAGS ()', APPEND_F, b'EXPUNGE'],
     'toggle': [b'UID STORE 103 +FLAGS (\\Flagged)', b'UID STORE 103 -FLAGS (\\Flagged)',
                b'UID STORE 104 +FLAGS (\\Answered)', APPEND_0],
 }
@@ -56,6 +65,8 @@ def enc_obs(o) -> str:
 
 
 def enc_action(a) -> str:
+    if a[0] == 'n':
+        return f'(HN {T.lst(T.nat(x) for x in a[1]) if a[1] else "(@nil nat)"})'
     if a[0] == 'w':
         return f'(HW {T.nat(a[2])})'
     if a[0] == 'rel':
@@ -78,9 +89,15 @@ async def play(ctx, cfg, schedule, line_idx: int):
     for a in schedule:
         if a[0] == 'w':
             _, w, b = a
-            o = await r.write(w, script[used:used + b])
+            o, woken = await r.write(w, script[used:used + b])
             used += b
-            steps.append((('w', w, b), o))
+            steps.append((('w', w, b) if woken is None else ('n', woken), o))
+        elif a[0] == 'race':
+            _, w, b, s, k, offset = a
+            line, ok = LINES[k]
+            o, woken = await r.race(w, script[used:used + b], s, line, offset)
+            used += b
+            steps.append((('race', s, ok, line, woken), o))
         elif a[0] == 'rel':
             o, last = await r.release(a[1])
             steps.append((('rel', a[1], last), o))
@@ -103,7 +120,7 @@ async def play(ctx, cfg, schedule, line_idx: int):
            'batches': [list(c.verif_batches) for c in r.idlers],
            'shadow_errors': [list(sh.errors) for sh in r.shadows],
            'exc': [repr(c.exc) for c in r.idlers + r.writers if c.exc is not None],
-           'hi': r.hi}
+           'hi': r.hi, 'after_noop': await r.noop_after_idle()}
     await r.close()
     return rec, options, r
 
@@ -122,10 +139,8 @@ def monitors(ctx, rec, schedule) -> bool:
         ctx.failure('idle_delivery', f'exception escaped a connection: {rec["exc"]}', replay,
                     {'kind': 'exception'})
         failed = True
-    hi = 0
     for k, (a, o) in enumerate([(None, rec['o0'])] + rec['steps']):
-        if a is not None and a[0] == 'w':
-            hi += a[2]
+        hi = o['hi']
         for s, ph in enumerate(o['phase']):
             if ph == 0 and hi not in o['deliv'][s]:
                 ctx.failure('idle_delivery',
@@ -134,14 +149,23 @@ def monitors(ctx, rec, schedule) -> bool:
                             f'{o["deliv"][s]}); cfg {cfg}, schedule {schedule[:k]}',
                             replay, {'kind': 'lost_wakeup'})
                 failed = True
-        if a is not None and a[0] == 'done':
-            _, s, ok, line = a
+        if a is not None and a[0] in ('done', 'race'):
+            _, s, ok, line = a[:4]
             ph = o['phase'][s]
             if (ok and ph != 2) or (not ok and ph != 3):
                 ctx.failure('idle_done', f'client line {line!r} during IDLE: expected tagged '
                             f'{"OK" if ok else "BAD"}, server wrote {o["pushed"][s]!r}', replay,
                             {'kind': 'done_ok' if ok else 'other_bad'})
                 failed = True
+    # nothing may be lost across the end of IDLE: after one NOOP the client knows everything
+    for s, complete, noop_out, view, truth in rec.get('after_noop', []):
+        if not complete:
+            ctx.failure('idle_delivery',
+                        f'idler {s}: IDLE has ended and a NOOP was answered {noop_out!r}, but its '
+                        f'client still does not know the mailbox: client view {view}, mailbox '
+                        f'{truth}; cfg {cfg}, schedule {schedule}',
+                        replay, {'kind': 'lost_across_done'})
+            failed = True
     return failed
 
 
@@ -176,6 +200,11 @@ def configs(ctx):
         ((True,), 1, 'toggle', 2),
         ((False,), 1, 'append-store', 2),
         ((True, False), 1, 'store-store', 2),
+        ((True,), 1, 'replace-empty', 2),
+        ((True, False), 1, 'replace-empty', 3),
+        ((False,), 1, 'noop-stores', 4),
+        ((True,), 1, 'copy-move', 2),
+        ((True,), 1, 'append-plain', 2),
     ]
     if ctx.quick:
         return quick
@@ -187,6 +216,10 @@ def configs(ctx):
         ((True, True), 1, 'append-store', 2),
         ((True, True), 2, 'expunge-append', 3),
         ((True, False), 2, 'toggle', 3),
+        ((True,), 1, 'replace-empty', 4),
+        ((True,), 1, 'noop-stores', 4),
+        ((True,), 1, 'copy-move', 4),
+        ((True, False), 1, 'append-plain', 4),
     ]
 
 
@@ -246,6 +279,40 @@ def section_dict(ctx, recheck: bool) -> None:
     if bad and not reported:
         ctx.broken.append(f'correspondence idle: {len(bad)} runs of the real server are not '
                           f'behaviours of the model (each also fails a monitor)')
+
+
+def race_configs(ctx):
+    base = [((False,), 1, 'store-store', 2), ((True,), 1, 'append-store', 2),
+            ((False,), 1, 'replace-empty', 2), ((False,), 1, 'delete-expunge', 2)]
+    if not ctx.quick:
+        base += [((True,), 1, 'copy-move', 2), ((False, True), 1, 'append-plain', 2),
+                 ((True,), 1, 'delete-expunge', 2)]
+    return base
+
+
+def section_races(ctx) -> None:
+    """writer commands in the scheduler turns right around the client's line
+    (not at quiescence, so outside the model's action alphabet: monitors only)"""
+    n = 0
+    offsets = range(-4, 9) if ctx.quick else range(-8, 17)
+    with batch_recorder():
+        for cfg in race_configs(ctx):
+            gated = cfg[0]
+            prefixes = [(), (('w', 0, 1),)]
+            if gated[0]:
+                prefixes = [(('rel', 0),), (), (('rel', 0), ('w', 0, 1))]
+            for pre in prefixes:
+                for off in offsets:
+                    for k in ((0, 3) if ctx.quick or off % 2 else (0, 3, 1, 5)):
+                        schedule = tuple(pre) + (('race', 0, 1, 0, k, off),)
+                        try:
+                            rec, _, _ = arun(play(ctx, cfg, schedule, k), timeout=60)
+                        except AssertionError:
+                            continue
+                        n += 1
+                        ctx.count(('race', repr(cfg), schedule), nontrivial=True)
+                        monitors(ctx, rec, schedule)
+    ctx.extra['idle_races'] = n
 
 
 # ---------------------------------------------------------------- maildir
@@ -311,6 +378,7 @@ def run(ctx) -> None:
     ctx.check_proofs(['Sync/IdleCheck'])
     recheck = os.environ.get('VERIF_C16_RECHECK', 'true') == 'true'
     section_dict(ctx, recheck)
+    section_races(ctx)
     section_maildir(ctx)
     ctx.exhaustive = all(x['all_placements'] for x in ctx.extra.get('idle_exploration', []))
 
